@@ -85,7 +85,7 @@ var plans = map[string][]part{
 	"C07": {{"seq", 100, false}},
 	"C08": {{"conc", 60, false}, {"conc", 40, true}},
 	"C09": {{"conc", 100, false}},
-	"C10": {{"async", 100, false}},
+	"C10": {{"seq", 100, false}},
 	"C11": {{"repair", 100, false}},
 	"C12": {{"diff", 100, false}},
 	"C13": {{"seq", 100, false}},
@@ -99,6 +99,10 @@ var plans = map[string][]part{
 }
 
 var levels = map[string]string{"C05": "fault_enumeration", "C06": "fault_enumeration"}
+
+// outDir is where evidence and replay files go (VERIF_OUT redirects them when
+// the checks are pointed at a scratch copy of the repository).
+func outDir() string { return env("VERIF_OUT", verifDir) }
 
 func env(k, d string) string {
 	if v := os.Getenv(k); v != "" {
@@ -624,8 +628,8 @@ func check(prop, tier string) int {
 				b.cleanup()
 				die2("determinism failure of the machinery: violation %s of seed %d did not reproduce in a fresh process (%v)", v.V.Sig, v.Params.Seed, err)
 			}
-			os.MkdirAll(filepath.Join(verifDir, "replays"), 0755)
-			rp := filepath.Join(verifDir, "replays", fmt.Sprintf("%s-%s-%d.json", prop, p.Scen, conf.Params.Seed))
+			os.MkdirAll(filepath.Join(outDir(), "replays"), 0755)
+			rp := filepath.Join(outDir(), "replays", fmt.Sprintf("%s-%s-%d.json", prop, p.Scen, conf.Params.Seed))
 			body, _ := json.MarshalIndent(map[string]interface{}{
 				"property": prop, "params": conf.Params, "violation": conf.V, "race": p.Race,
 				"code_fingerprint": b.fp, "config": conf.Config, "ops": conf.Ops, "event_digest": conf.Digest,
@@ -651,6 +655,10 @@ func check(prop, tier string) int {
 		if exit == 1 {
 			break
 		}
+	}
+	if a.runs > 0 && sumMap(a.incon) == a.runs {
+		b.cleanup()
+		die2("every run was inconclusive: %v", a.incon)
 	}
 	var kpats []string
 	for k := range a.knownHit {
@@ -749,9 +757,9 @@ func writeEvidence(prop, tier string, seed uint64, a *agg, b *build, wall, build
 		},
 		"wall_s": wall, "violations": viol,
 	}
-	os.MkdirAll(filepath.Join(verifDir, "evidence"), 0755)
+	os.MkdirAll(filepath.Join(outDir(), "evidence"), 0755)
 	body, _ := json.MarshalIndent(ev, "", " ")
-	os.WriteFile(filepath.Join(verifDir, "evidence", prop+".json"), body, 0644)
+	os.WriteFile(filepath.Join(outDir(), "evidence", prop+".json"), body, 0644)
 	fmt.Printf("%s %s: %d runs, %d evaluations, %d distinct, %.0f s wall (build %.0f s), %d inconclusive, %d foreign divergences, exit %d\n",
 		prop, tier, a.runs, a.cases, distinct, wall, buildS, sumMap(a.incon), sumMap(a.foreign), exit)
 	if len(unreached) > 0 {
